@@ -278,7 +278,10 @@ chk.cov["units_by_kind"] = units_by_kind
 chk.cov["valgrind_runs"] = vg_runs
 chk.cov["valgrind_invalid_reports"] = vg_reports
 chk.cov["valgrind_suppressed_startup_reports"] = vg_suppressed
-chk.cov["avoided_constructs"] = [a for a in avoid] + [k for f, k in cgo_probe_kinds.items() if chk.is_open(f)] + (["capturing closure as C callback"] if chk.is_open(F_CAPT) else [])
+AVOID_TEXT = {"regsplit": "9..16-byte struct argument placed where the remaining argument registers cover only part of its eightbytes",
+              "nestedpad": "9..16-byte aggregate whose leaves, packed by their own alignment, are not at their real offsets (nested-aggregate padding)",
+              "gobytes_alias": "reading a C.GoBytes result after C modified the buffer", "cbytes_empty": "C.CBytes of an empty slice"}
+chk.cov["avoided_constructs"] = [AVOID_TEXT[a] for a in avoid] + [AVOID_TEXT[k] for f, k in cgo_probe_kinds.items() if chk.is_open(f)] + (["capturing closure as C callback"] if chk.is_open(F_CAPT) else [])
 chk.cov["rule"] = ("every scalar leaf echoed by the receiving side (C callee compiled by gcc -O1 / Go callback compiled by llgo) and every leaf of the returned, "
                    "leaf-wise transformed value must equal the generator's table, which must equal a C->C run of the same calls (gcc only); strings/buffers: byte-for-byte "
                    "equality incl. terminator, copy semantics (mutating one side after the conversion must not change the other), cgo program also vs the reference go toolchain; "
@@ -294,4 +297,5 @@ for (tag, prog, fid), o in results[len(probe_jobs) + len(str_jobs):][:2]:
     exp = [l for l in (prog["exp_out"] + prog["exp_err"]).split("\n") if l.startswith(("C %d " % k, "G %d " % k))]
     chk.sample({"program": tag, "unit": k, "signature": m[k]["sig"], "expected_lines": [e[:160] for e in exp[:3]]})
 chk.sample({"program": "strc", "units": str_cgo["nunits"], "kinds": cgo_kinds})
-chk.finish(floor_eval=(300 if quick else 10000) * min(1, NPROG / 8.0), floor_distinct=100 if NPROG >= 8 else 10)
+scale = min(1.0, NPROG / (8.0 if quick else 300.0))      # C09_NPROG scales a run down (mutant / fix validation); floors scale with it
+chk.finish(floor_eval=int((900 if quick else 14000) * scale), floor_distinct=int((250 if quick else 2000) * scale) + 5)
